@@ -45,6 +45,10 @@ def setup():
     if M:
         return
     M.update(load_instrumented(["myst_parser.config.dc_validators", "myst_parser.config.main"]))
+    import yaml  # noqa: F401  (imported before any family swaps sys.modules["yaml"])
+    from harness import common_render as CR
+
+    CR.setup_pipeline()  # the option-string family uses the instrumented docutils front end; load it before the workers fork
 
 
 # --------------------------------------------------------------- type table
@@ -153,7 +157,8 @@ def accepts(field, v):
     if field == "mathjax_classes":
         return is_str(v)
     if field == "words_per_minute":
-        return is_int(v)
+        # a positive integer (it is used as a divisor)
+        return is_int(v) and bool(v > 0)
     raise KeyError(field)
 
 
@@ -489,7 +494,10 @@ def make_topmatter(eng, n, alphabet):
         try:
             res = cm.read_topmatter(text)
         finally:
-            sys.modules["yaml"] = saved
+            if saved is None:
+                sys.modules.pop("yaml", None)
+            else:
+                sys.modules["yaml"] = saved
         lines = text.splitlines() if len(text) else []
         has = len(lines) > 0 and T(lines[0].startswith("---")) if len(text) else False
         if not has:
@@ -514,6 +522,123 @@ def T(v):
     return v if isinstance(v, bool) else bool(v)
 
 
+# ------------------------------------------------------------ docutils option strings (third entry point)
+
+OPT = {}
+
+
+def _optstring_values(field):
+    """[(option string, equivalent Python value)] for a config field, by its declared type (the documented docutils.conf spellings)."""
+    import typing
+    from collections.abc import Iterable, Sequence
+
+    t = field.type
+    name = field.name
+    if name == "url_schemes":
+        return [("http,mailto", ["http", "mailto"]), ('{"http": null, "x": "y{{path}}"}', {"http": None, "x": "y{{path}}"})]
+    if t is int:
+        return [("7", 7), ("1", 1)]
+    if t is bool:
+        return [("yes", True), ("0", False), ("True", True), ("off", False)]
+    if name == "heading_slug_func":
+        return [("myst_parser.config.main._test_slug_func", "myst_parser.config.main._test_slug_func")]
+    if t is str:
+        return [("a|b", "a|b")]
+    if typing.get_origin(t) is typing.Literal:
+        return [(a, a) for a in typing.get_args(t)]
+    if t in (Iterable[str], Sequence[str]):
+        vals = {"disable_syntax": "emphasis,strong", "number_code_blocks": "python,c", "suppress_warnings": "myst.header,myst"}.get(name, "a,b")
+        return [(vals, vals.split(",")), (vals.split(",")[0], [vals.split(",")[0]])]
+    if t == set[str]:
+        vals = {"enable_extensions": "deflist,tasklist"}.get(name, "mermaid,x")
+        return [(vals, set(vals.split(","))), (vals.split(",")[0], {vals.split(",")[0]})]
+    if t == tuple[str, str]:
+        return [("[,]", ("[", "]"))]
+    if t == int | type(None):
+        return [("3", 3), ("0", 0)]
+    if t == Iterable[str] | type(None):
+        return [("py,std", ["py", "std"])]
+    if typing.get_origin(t) is dict:
+        return [('{"k": "v"}', {"k": "v"})] if name != "inventories" else [('{"k": ["https://x.invalid", null]}', {"k": ["https://x.invalid", None]})]
+    return []
+
+
+def _opt_fields(cm):
+    return [f for f in cm.MdParserConfig.get_fields() if "docutils" not in f.metadata.get("omit", [])]
+
+
+def run_optstring(fi, vi, real=False):
+    """Returns (config built from the option string, config built by the constructor, option string)."""
+    from docutils import frontend
+
+    if real:
+        import myst_parser.config.main as cm
+        import myst_parser.parsers.docutils_ as du
+    else:
+        cm, du = OPT["myst_parser.config.main"], OPT["myst_parser.parsers.docutils_"]
+    field = _opt_fields(cm)[fi]
+    vals = _optstring_values(field)
+    if vi >= len(vals):
+        return None
+    ostr, pyval = vals[vi]
+    flag = "--myst-" + field.name.replace("_", "-")
+    parser = frontend.OptionParser(components=(du.Parser,), read_config_files=False)
+    settings = parser.parse_args([flag + "=" + ostr])
+    got = du.create_myst_config(settings)
+    ref = cm.MdParserConfig(**{field.name: pyval})
+    return field.name, ostr, getattr(got, field.name), getattr(ref, field.name), got, ref
+
+
+def check_optstring(res):
+    import dataclasses as dc
+
+    name, ostr, gv, rv, got, ref = res
+    if type(gv) is not type(rv) or gv != rv:
+        return ("optstring-differs:%s" % name, "docutils option --myst-%s=%s gives %r (%s), the constructor stores %r (%s) for the same value" % (name.replace("_", "-"), ostr, gv, type(gv).__name__, rv, type(rv).__name__))
+    for f in dc.fields(ref):
+        if f.name != name and getattr(got, f.name) != getattr(ref, f.name):
+            return ("optstring-touches-other-field", "--myst-%s=%s changed %s" % (name, ostr, f.name))
+    return None
+
+
+def make_optstrings(eng):
+    setup()
+    if not OPT:
+        from harness import common_render as CR
+
+        CR.setup_pipeline()
+        OPT["myst_parser.parsers.docutils_"] = CR.P["docutils_"]
+        import sys
+
+        OPT["myst_parser.config.main"] = sys.modules.get("symx_copy.myst_parser.config.main") or M["myst_parser.config.main"]
+        OPT["myst_parser.config.main"] = CR.P["docutils_"].MdParserConfig.__module__ and sys.modules[CR.P["docutils_"].MdParserConfig.__module__]
+    from harness import common_render as CR
+
+    c = CR.Choice(eng, width=63)
+    state = {}
+    eng.witness_fn = lambda m: dict(state)
+    nfields = len(_opt_fields(OPT["myst_parser.config.main"]))
+
+    def body():
+        c.reset()
+        fi, vi = c.choose(nfields), c.choose(4)
+        state.update(optstring=[fi, vi])
+        try:
+            res = run_optstring(fi, vi)
+        except (Exception, SystemExit) as exc:  # noqa
+            eng.fail("optstring-raises", "field %d value %d: %s: %s" % (fi, vi, type(exc).__name__, str(exc)[:200]))
+        if res is None:
+            raise core.PathAbort("no such value")
+        err = check_optstring(res)
+        if err:
+            eng.fail(*err)
+        eng.passed(2)
+        eng.note("accepted")
+        return "ok"
+
+    return body
+
+
 def families(tier, seed):
     q = tier == "quick"
     F = []
@@ -534,6 +659,8 @@ def families(tier, seed):
     F.append(Family("unknown-keys", make_unknown, "unknown 2-char key / non-dict 'myst' / deprecated top-level keys", nontrivial="accepted"))
     for n in ([5, 7] if q else [7, 9]):
         F.append(Family("topmatter/N%d" % n, make_topmatter, "read_topmatter on all texts of %d chars over '-.a \\n'" % n, args=dict(n=n, alphabet="-.a \n"), nontrivial="accepted"))
+    F.append(Family("optstrings", make_optstrings, "every config field that has a docutils option x 1-4 option-string spellings (comma lists, booleans, ints, YAML dictionaries) through the real OptionParser and create_myst_config: "
+                    "same stored value as the constructor given the equivalent Python value", nontrivial="accepted", max_forks=10000))
     return F
 
 
@@ -541,6 +668,15 @@ def families(tier, seed):
 
 
 def replay(label, witness):
+    if "optstring" in witness:
+        try:
+            res = run_optstring(witness["optstring"][0], witness["optstring"][1], real=True)
+        except (Exception, SystemExit) as e:  # noqa
+            return ("C13/optstring-raises:%s" % type(e).__name__, "field %r: %r" % (witness["optstring"], e))
+        if res is None:
+            return None
+        err = check_optstring(res)
+        return ("C13/%s" % err[0], err[1]) if err else None
     import myst_parser.config.main as real
 
     if "text" in witness:
